@@ -4,6 +4,7 @@ import HttpcoreModel.Drv.H1
 import HttpcoreModel.Drv.H1W
 import HttpcoreModel.Drv.Pool
 import HttpcoreModel.Drv.Est
+import HttpcoreModel.Drv.C15
 /-!
 Line-protocol driver: one case per input line, one answer per output line.
 First token selects the model function.  Imports model files only (no proofs, no Mathlib).
@@ -23,6 +24,7 @@ def dispatch (line : String) : String :=
     else if cmd = "h2hdrs" then Drv.h2hdrs args
     else if cmd = "poolpass" then Drv.poolpass args
     else if cmd = "est" then Drv.est args
+    else if cmd = "c15" then Drv.c15 args
     else "bad-cmd"
 
 partial def loop (h : IO.FS.Stream) (out : IO.FS.Stream) : IO Unit := do
